@@ -674,6 +674,21 @@ func genC04(r *simrt.Rand, tier string) *simrt.Plan {
 		}
 		ops = append(ops, simrt.Op{K: "decode", I: I})
 	}
+	if r.Bool(0.15) {
+		// a payload with many containers (counts around multiples of 8: the official
+		// format's is-run bitmap has one bit per container), decoded and imported
+		nc := int64(simrt.Pick(r, 7, 8, 9, 16, 17, 24, 64, 65))
+		f := allFormats[r.Intn(len(allFormats))]
+		I := []int64{f}
+		for k := int64(0); k < nc; k++ {
+			ln := int64(simrt.Pick(r, 1, 3, 300))
+			if k == nc/2 && r.Bool(0.5) {
+				ln = 5000 // one bitmap container among arrays/runs
+			}
+			I = append(I, k<<16|int64(r.Intn(8)), ln)
+		}
+		ops = append(ops, simrt.Op{K: "decode", I: I}, simrt.Op{K: "import", I: append([]int64{int64(r.Intn(2))}, I...)}, simrt.Op{K: "rall"})
+	}
 	ops = append(ops, simrt.Op{K: "roundtrip"}, simrt.Op{K: "rall"})
 	p.Clients = [][]simrt.Op{ops}
 	return p
